@@ -567,6 +567,10 @@ def execLine (s : Sess) (line : String) : StepOut :=
     match runP pNat args with
     | some r => if r < w.resCount then { s := s, lines := [okLine (showVal (w.resGet r))] } else badRef s
     | none => badOp s
+  else if cmd == "reslook" then
+    match runP pNat args with
+    | some r => if r < w.resCount then { s := s, lines := [okLine s!"{r} n={w.resCount} type=true"] } else badRef s
+    | none => badOp s
   else if cmd == "reshas" then
     match runP pNat args with
     | some r => if r < w.resCount then { s := s, lines := [okLine (b01 (w.resHas r))] } else badRef s
